@@ -166,7 +166,7 @@ def builtin_names_doc():
     import builtins, keyword
     names = sorted({n for n in dir(builtins) if n.islower() and n.isidentifier() and not n.startswith("_")} | set(keyword.kwlist) | set(keyword.softkwlist) |
                    {"self", "cls", "field", "define", "attrs", "json", "datetime", "uuid", "types", "errors", "client", "models", "api", "typing", "httpx", "http"})
-    S = {"Builtins": obj({n: {"type": "string"} for n in names}, required=[]),
+    S = {"Builtins": obj(dict({n: {"type": "string"} for n in names}, zq_union={"type": ["string", "null"]}, zq_when=any_of({"type": "string", "format": "date"}, {"type": "integer"})), required=[]),
          "BuiltinsDated": obj(dict({n: {"type": "string"} for n in names[::3]}, when={"type": "string", "format": "date-time"}), required=["when"])}
     paths = {}
     for i in range(0, len(names), 12):
